@@ -187,6 +187,7 @@ type Exec struct {
 	Axioms     []*Term
 	AxiomNames []string
 	resultMode bool
+	SymRangesMap map[string][2]*big.Int // value ranges of this function's machine-integer symbols (see SymRanges)
 	constSeen map[string]bool
 	Debug   bool
 }
@@ -282,9 +283,17 @@ func (ex *Exec) rangeFact(x *Term, t types.Type) *Term {
 		return True
 	}
 	if signed {
-		return And(IGe(x, IntBig(new(big.Int).Neg(Pow2(bits-1)))), ILe(x, IntBig(new(big.Int).Sub(Pow2(bits-1), big.NewInt(1)))))
+		lo, hi := new(big.Int).Neg(Pow2(bits-1)), new(big.Int).Sub(Pow2(bits-1), big.NewInt(1))
+		if x.Op == "sym" {
+			SymRanges[x.Name] = [2]*big.Int{lo, hi}
+		}
+		return And(IGe(x, IntBig(lo)), ILe(x, IntBig(hi)))
 	}
-	return And(IGe(x, IntC(0)), ILe(x, IntBig(new(big.Int).Sub(Pow2(bits), big.NewInt(1)))))
+	hi := new(big.Int).Sub(Pow2(bits), big.NewInt(1))
+	if x.Op == "sym" {
+		SymRanges[x.Name] = [2]*big.Int{big.NewInt(0), hi}
+	}
+	return And(IGe(x, IntC(0)), ILe(x, IntBig(hi)))
 }
 
 // ---------- symbolic values ----------
